@@ -9,6 +9,11 @@ Each of them is a wrapper around the primitive operations of `C02.Op` (Model.lea
                                         (`execute_with_callback` does not), the loop control never reads it
   `knowledge_base_mut().f(..)`          the same `KnowledgeBase` method as through `knowledge_base()` (they take `&self`)
   `knowledge_base().clear()`            empties the rule vector (the engine's own bookkeeping is not touched)
+  `*knowledge_base_mut() = new_kb`      replaces the WHOLE knowledge base by a freshly built one (`knowledge_base_mut()` hands out
+                                        `&mut KnowledgeBase`, so the assignment is plain public API): the rule vector becomes the new
+                                        one's (its rules added in order to an empty base); the engine's own bookkeeping (no-loop set,
+                                        agenda manager, activation queue) is not touched. The new base's `version()` counter — equal
+                                        to, smaller or larger than the old one's — is nothing `execute` may depend on: the model has none.
   `execute_workflow_step(g, facts)`     `set_agenda_focus(g)`; `execute(facts)?`; `process_workflow_actions(facts)?`
   `execute_workflow(groups, facts)`     `execute_workflow_step` per group, stops after a step that fired nothing; `?` on `Err`
   `RustRuleEngine::new(kb)`             `with_config(kb, EngineConfig::default())`: `max_cycles = 100` (`defaultMaxCycles`)
@@ -28,6 +33,7 @@ inductive Call where
   | setAnalytics (b : Bool)         -- `enable_analytics(RuleAnalytics::new(default))` / `disable_analytics()`
   | viaMut (o : Op)                 -- a knowledge-base operation through `knowledge_base_mut()`
   | kbClear                         -- `knowledge_base().clear()`
+  | kbReplace (rs : List Rule)      -- `*knowledge_base_mut() = <a new KnowledgeBase with the rules rs added in order>`
   | wfStep (g : Nat)                -- `execute_workflow_step`
   | workflow (gs : List Nat)        -- `execute_workflow`
 deriving Repr, DecidableEq
@@ -66,6 +72,7 @@ def callStep (maxc now : Nat) (st : St) : Call → St × CRes
   | .setAnalytics _ => (st, .res .unit)
   | .viaMut o => let s := step maxc st o; (s.1, .res s.2)
   | .kbClear => ({ st with rules := [] }, .res .unit)
+  | .kbReplace rs => ((run maxc { st with rules := [] } (rs.map Op.add)).1, .res .unit)
   | .wfStep g => let s := wfStep maxc now st g; (s.1, .res (.exec s.2))
   | .workflow gs => let r := wfLoop maxc now st gs; (r.1, .workflow r.2.1 r.2.2)
 
@@ -98,6 +105,7 @@ def Call.ops (maxc now : Nat) (st : St) : Call → List Op
   | .setAnalytics _ => []
   | .viaMut o => [o]
   | .kbClear => st.rules.map (fun r => Op.remove r.name)
+  | .kbReplace rs => st.rules.map (fun r => Op.remove r.name) ++ rs.map Op.add
   | .wfStep g => stepOps now g
   | .workflow gs => (wfVisited maxc now st gs).flatMap (stepOps now)
 
